@@ -268,4 +268,31 @@ def main(tier):
     check_error_kinds(run, fx, rs)
     run.assumptions += ["the ixdtf crate implements the RFC 9557 / Temporal grammar and rejects unknown critical "
                         "annotations that the handler returns to it"]
+    # the month-day grammar does not bound the day by the month: the constructor must reject, not constrain
+    rule = "R1.parser-rejects-open-field-ranges"
+    run.rule(rule, "where the ixdtf grammar leaves a field range open (month-day strings: the day is not checked against the "
+                   "month; full dates are checked by ixdtf::check_date_validity), the parser builds the value with "
+                   "ArithmeticOverflow::Reject so that an impossible day is a RangeError and is never constrained")
+    fmd = find_trait_fn(fx["temporal_rs"], "month_day::PlainMonthDay", "FromStr", "from_str") if "find_trait_fn" in globals() else None
+    if fmd is None:
+        fmd = next((g for g in fx["temporal_rs"].fns if g.path.endswith("PlainMonthDay as core::str::traits::FromStr>::from_str")), None)
+    if fmd is None:
+        run.anchor_missing(rule, "PlainMonthDay::from_str", "not found")
+    else:
+        ev = H.Evaluator(fx)
+        ev.inline = lambda p: False
+        ev.call_fn(fmd, [H.Sym("param", (p["name"],)) for p in fmd.params])
+        consts = []
+        for c in ev.trace:
+            g = fx["temporal_rs"].fn(str(c.parts[0]))
+            if g is None:
+                continue
+            for k, p in enumerate(g.params):
+                if "ArithmeticOverflow" in p["ty"] and k < len(c.parts[1]):
+                    consts.append((g.name, show(c.parts[1][k])))
+        run.check(bool(consts) and all(v.endswith("ArithmeticOverflow::Reject") for _, v in consts), rule,
+                  "PlainMonthDay::from_str", "validating constructor called with Reject: %s" % consts,
+                  "PlainMonthDay::from_str builds the month-day with %s; the month-day grammar does not check the day against "
+                  "the month, so anything but Reject turns `02-30` into a valid value" % (consts or "no validating constructor"),
+                  fmd.loc)
     return run.finish(EXPLANATION)
